@@ -400,16 +400,33 @@ class StmtMixin(object):
         else:
             self.land(end)
 
-    def st_With(self, s):
+    def st_With(self, s, first=0):
         managed = []
-        for item in s.items:
+        for i, item in enumerate(s.items):
+            if i < first:
+                continue
             v = self.ev(item.context_expr)
             if self.cur is None:
                 return
+            if isinstance(v, GenObj) and self.is_contextmanager(v.func):
+                # @contextmanager generator: its body runs up to the yield, the block
+                # of the with statement runs *at* the yield (an exception of the block
+                # is raised there, inside the generator's try statements), then the
+                # rest of the generator
+                def block(val, _i=i, _item=item):
+                    if _item.optional_vars is not None:
+                        self.bind_target(_item.optional_vars, val, s)
+                    if _i + 1 < len(s.items):
+                        self.st_With(s, _i + 1)
+                    else:
+                        self.exec_block(s.body)
+                self.weave_cm(v, block, s)
+                break
             managed.append(v)
             if item.optional_vars is not None:
                 self.bind_target(item.optional_vars, v, s)
-        self.exec_block(s.body)
+        else:
+            self.exec_block(s.body)
         # leaving the block closes file objects (normal exit; the exceptional exit
         # closes too but a failing close there only masks the first error)
         for v in reversed(managed):
@@ -438,14 +455,17 @@ class StmtMixin(object):
         rec = LoopRec(exit_, head)
         self.loops.append(rec)
         self.loop_depth = getattr(self, 'loop_depth', 0) + 1
+        self.loop_heads = getattr(self, 'loop_heads', []) + [head]
         self.cur = t
         self.apply_refinements(rt)
         self.exec_block(s.body)
         if self.cur is not None:
             self.g.edge(self.cur, head, 'back')
         self.loop_depth -= 1
+        self.loop_heads = self.loop_heads[:-1]
         self.loops.pop()
         self.frame.env.vars = self.merge_envs([pre, self.frame.env.vars] + rec.break_envs)
+        self.close_loopvars(names, head)
         self.land(exit_)
         if self.cur is not None and s.orelse:
             self.exec_block(s.orelse)
@@ -457,6 +477,22 @@ class StmtMixin(object):
                 if isinstance(old, (Obj, ListObj, DictObj, FuncRef, ClsRef, GenObj)):
                     continue
                 self.frame.env.vars[nme] = join(old, LoopVar(nme, head))
+
+    def close_loopvars(self, names, head):
+        """After a loop: a variable whose value at the loop head (LoopVar) only flows
+        through the body unchanged or is overwritten -- never computed *from* -- is, after
+        the loop, one of the values assigned to it (before or inside the loop)."""
+        for nme in names:
+            v = self.frame.env.vars.get(nme)
+            if not isinstance(v, Phi):
+                continue
+            me = LoopVar(nme, head)
+            rest = [(a, o) for a, o in v.alts if a != me]
+            if len(rest) == len(v.alts) or not rest:
+                continue
+            if any(contains(a, lambda x: x == me) for a, o in rest):
+                continue
+            self.frame.env.vars[nme] = join(*rest)
 
     def st_For(self, s):
         it = self.ev(s.iter)
@@ -557,11 +593,11 @@ class StmtMixin(object):
     def element_of(self, it):
         if isinstance(it, ListObj):
             if it.items:
-                return join(*it.items)
+                return strip_origins(join(*it.items))
             return Elem(it)
         if isinstance(it, DictObj):
             if it.entries:
-                return join(*[k for k, _ in it.entries])
+                return strip_origins(join(*[k for k, _ in it.entries]))
         return Elem(it)
 
     def generic_loop(self, it, per_item, names, node):
@@ -580,14 +616,69 @@ class StmtMixin(object):
         rec = LoopRec(exit_, head)
         self.loops.append(rec)
         self.loop_depth = getattr(self, 'loop_depth', 0) + 1
+        self.loop_heads = getattr(self, 'loop_heads', []) + [head]
         self.emit('iteration', node, {'value': self.element_of(it)})
         per_item(self.element_of(it))
         if self.cur is not None:
             self.g.edge(self.cur, head, 'back')
         self.loop_depth -= 1
+        self.loop_heads = self.loop_heads[:-1]
         self.loops.pop()
         self.frame.env.vars = self.merge_envs([pre, self.frame.env.vars] + rec.break_envs)
+        self.close_loopvars(names, head)
         self.land(exit_)
+
+    def is_contextmanager(self, func):
+        node = getattr(func, 'node', None)
+        return any(ast.unparse(d).split('.')[-1] == 'contextmanager'
+                   for d in getattr(node, 'decorator_list', []))
+
+    def weave_cm(self, gen, block, node):
+        """with <@contextmanager generator>: run the generator body, the block at its
+        yield with the generator's handlers in force."""
+        object.__setattr__(gen, 'consumed', gen.consumed + 1)
+        self.stats['generators_woven'] += 1
+        gframe = gen.frame
+        if gen.func in self.active:
+            self.diag('recursion', 'recursive context manager %s cut' % gen.func.qualname,
+                      node)
+            return block(Unknown('recursive-contextmanager'))
+        cframe = self.frame
+        cloops = self.loops
+        builder = self
+        yielded = [0]
+
+        def on_yield(val, ynode):
+            yielded[0] += 1
+            gctx = (builder.frame, builder.loops)
+            builder.frame = cframe
+            builder.loops = cloops
+            try:
+                block(val)
+            finally:
+                builder.frame, builder.loops = gctx
+            return NONE
+
+        gframe.yield_handler = on_yield
+        gen_end = self.join_node(node, 'contextmanager-exit')
+        gframe.ret_target = gen_end
+        self.emit('call', node, {'func': gen.func, 'args': dict(gframe.env.vars),
+                                 'contextmanager': True})
+        saved = (self.frame, self.loops)
+        self.frame = gframe
+        self.loops = []
+        self.active.append(gen.func)
+        try:
+            self.exec_block(gen.func.node.body)
+            if self.cur is not None:
+                self.goto(gen_end)
+        finally:
+            self.active.pop()
+            self.frame, self.loops = saved
+        self.land(gen_end)
+        if yielded[0] == 0 and self.cur is not None:
+            self.diag('unsupported-stmt', 'context manager %s never yields (%d)'
+                      % (gen.func.qualname, yielded[0]), node)
 
     def weave(self, gen, per_item, names, node):
         """Attach the body of generator ``gen`` to the consuming loop."""
@@ -643,16 +734,19 @@ class StmtMixin(object):
         self.loops = []
         self.active.append(gen.func)
         self.loop_depth = getattr(self, 'loop_depth', 0) + 1
+        self.loop_heads = getattr(self, 'loop_heads', []) + [head]
         try:
             self.exec_block(gen.func.node.body)
             if self.cur is not None:
                 self.goto(gen_end)
         finally:
             self.loop_depth -= 1
+            self.loop_heads = self.loop_heads[:-1]
             self.active.pop()
             self.frame, self.handlers, self.loops = saved
         self.land(gen_end)
         if self.cur is not None:
             self.goto(exit_, 'exhausted')
         self.frame.env.vars = self.merge_envs([pre, self.frame.env.vars] + rec.break_envs)
+        self.close_loopvars(names, head)
         self.land(exit_)
